@@ -517,6 +517,18 @@ func runC18Seq(w *mon.W, no int) {
 			}
 			l := len(h.node.data)
 			nl := []int{0, l / 2, l, l + 3}[r.Intn(4)]
+			if r.Intn(4) == 0 {
+				// lengths far beyond the file, across the sign boundaries of 32- and 64-bit integers
+				huge := []uint64{1 << 31, 1<<32 + 1, 1<<62 + 7, 1 << 63, 1<<63 + uint64(l), ^uint64(0) - 1, ^uint64(0) - uint64(l) - 1}[r.Intn(7)]
+				err := s.s.WStat(ctx, f, p9p.Dir{Mode: ^uint32(0), Length: huge})
+				trace = append(trace, fmt.Sprintf("s%d.WStat(%d,length=%d)", si, f, huge))
+				w.Count("op:truncate-huge", 1)
+				if err == nil {
+					bad("truncate-up", "WStat(length=%d) on a %d-byte file succeeded", huge, l)
+					return
+				}
+				continue
+			}
 			err := s.s.WStat(ctx, f, p9p.Dir{Mode: ^uint32(0), Length: uint64(nl)})
 			trace = append(trace, fmt.Sprintf("s%d.WStat(%d,length=%d)", si, f, nl))
 			w.Count("op:truncate", 1)
